@@ -203,7 +203,7 @@ Example views_agree_nonvacuous :
   let ops := [rd 0%nat RSystem;
               (0%nat, NewReform);                 (* system 1 *)
               rd 1%nat (RFormula true);
-              (1%nat, Modify [(["a"; "b"], (150, None, Some 77))] true);
+              (1%nat, Modify [MUpd ["a"; "b"] (150, None, Some 77)] true);
               rd 1%nat RSystem; rd 1%nat (RFormula false); rd 1%nat RDirect;
               (0%nat, NewReform);                 (* system 2: no modifier *)
               rd 2%nat RSystem; rd 0%nat RSystem;
@@ -221,7 +221,7 @@ Proof. vm_compute. split; reflexivity. Qed.
 Example modifier_reads_current_baseline :
   map fst (wrun Fixed (init ex_tree)
              [(0%nat, NewReform); (0%nat, Load ex_tree2);
-              (1%nat, Modify [(["a"; "b"], (300, None, Some 5))] true);
+              (1%nat, Modify [MUpd ["a"; "b"] (300, None, Some 5)] true);
               (1%nat, Read RSystem ["a"; "b"] 200 TWhole); (1%nat, Read RSystem ["a"; "b"] 400 TWhole)]) =
     [Ok RNone; Ok RNone; Ok RNone; Ok (RView (VValue 3)); Ok (RView (VValue 5))].
 Proof. vm_compute. reflexivity. Qed.
